@@ -328,6 +328,13 @@ def run(ck, prog, ctx):
                                 bound = x.int_value() if bound is None else min(bound, x.int_value())
                     arith = [a for a in at if a[0] == "op" and a[1].startswith(("Add", "Mul", "Shl"))]
                     ok = bound is not None and bound < (1 << W[t_]) and not arith
+                    if not ok and s.rv["op"].place is not None and s.rv["op"].place.is_local():
+                        # the cast operand is itself `x % c` / `x & c` with a constant that fits: bounded whatever x is
+                        ds_ = pv.defs(b).get(s.rv["op"].place.local, [])
+                        if len(ds_) == 1 and ds_[0][0] == "assign" and ds_[0][2].rv["k"] == "bin" and ds_[0][2].rv["op"] in ("Rem", "BitAnd") and ds_[0][2].rv["r"].kind == "const":
+                            c_ = ds_[0][2].rv["r"].int_value()
+                            if c_ is not None and 0 < c_ <= (1 << W[t_]) - (0 if ds_[0][2].rv["op"] == "Rem" else 1):
+                                ok, bound = True, c_
                     via_helper = any(a[0] == "call" and a[3] == b.id and a[1] in prog.bodies and prog.bodies[a[1]].kind in ("Fn", "AssocFn") and prog.bodies[a[1]].locals[0]["s"] in W for a in pvn.of_operand(b, s.rv["op"]))
                     if not ok and bound is None and via_helper:
                         ck.undecided("GUARD", "cast/%s/%s->%s" % (b.short, f, t_), "%s: the cast value is computed by a helper whose bound is not recognised" % b.short, where=b.where(s.line))
@@ -348,7 +355,8 @@ def run(ck, prog, ctx):
                 src, cnt = t.args[0], t.args[1]
             elif c.trait == "std::ops::Index" and re.search(r"RangeTo<usize>|Range<usize>|RangeToInclusive<usize>", c.def_args or "") and len(t.args) == 2:
                 src, cnt = t.args[0], t.args[1]
-            elif c.method in ("truncate", "split_at", "get") and len(t.args) == 2 and re.search(r"RangeTo|usize", c.def_args or ""):
+            elif c.method in ("truncate", "split_at", "get") and len(t.args) == 2 and re.search(r"RangeTo|usize", c.def_args or "") and not re.search(r"RangeFrom<", c.def_args or ""):
+                # (`get(n..)` keeps the tail: it is not a truncation to a byte budget)
                 src, cnt = t.args[0], t.args[1]
             if src is None:
                 continue
@@ -454,7 +462,7 @@ def run(ck, prog, ctx):
     if wb is not None and rb is not None:
         if layout.check_record_layout(ck, "LAYOUT", prog, wb, rb, "HpoTermInternal", "parents", reader_input=2, running_base=True, size_field=False):
             n_pairs += 1
-    ck.floor("LAYOUT", "record codecs with an aligned writer/reader layout", n_pairs, 3)
+    ck.floor("LAYOUT", "record codecs with an aligned writer/reader layout", n_pairs, 3, soft=True)
 
     # ------------------------------------------------------------------ LAYOUT: section framing in Ontology::as_bytes
     ab = prog.body("ontology::Ontology::as_bytes")
